@@ -448,6 +448,28 @@ def mk_occ(occ):
     return SetBasedPrediction(first["iv"][0] if isinstance(first, dict) else first, out)
 
 
+Z_PROFILES = ["ramp", "ground-start", "ground-end", "cross-zero", "neg-zero", "all-zero", "tiny-big"]
+
+
+def z_profile(kind, n):
+    """Elevations of the n vertices of a bound (both bounds of a lanelet get the same)."""
+    if kind is True or kind == "ramp":            # nowhere zero (the profile of earlier corpus files: lanelet3d = true)
+        return [0.25 + 1.25 * i / (n - 1) for i in range(n)]
+    if kind == "ground-start":                    # 0.0, 0.5, 1.0, ...
+        return [0.5 * i for i in range(n)]
+    if kind == "ground-end":
+        return [0.5 * (n - 1 - i) for i in range(n)]
+    if kind == "cross-zero":                      # ..., -0.5, 0.0, 0.5, ... (exactly 0.0 at an inner or the last vertex)
+        return [0.5 * (i - n // 2) for i in range(n)]
+    if kind == "neg-zero":                        # -0.0 at one vertex, non-zero elsewhere
+        return [-0.0 if i == n // 2 else -1.5 - i for i in range(n)]
+    if kind == "all-zero":
+        return [0.0] * n
+    if kind == "tiny-big":
+        return [[1e-6, 123456.789012, -3.7e-7, 0.0, 1e5, -2.5e-5, 0][i % 7] for i in range(n)]
+    raise ValueError(kind)
+
+
 def gen_var(r, spec):
     """The dimensions beyond the object content (harness/c03_dims.py lists them): construction path, entry points, value
     classes, histories before the write, and what the writer object is / did before.  Every field is optional; a spec
@@ -460,7 +482,9 @@ def gen_var(r, spec):
         "entry": r.choice(["single", "single", "list", "scenario"]),
         "refs_by_library": r.random() < 0.3,          # sign / light references added by add_traffic_sign(sign, lanelet_ids)
         "cleanup": r.random() < 0.3,                  # explicit cleanup_*_references() after assembling
-        "lanelet3d": r.random() < 0.15,
+        # 3-D lanelet vertices: an elevation profile (zero / negative-zero elevations at some or at all vertices are values an
+        # "optional-looking" number takes: a ramp starting at ground level, a road crossing z = 0)
+        "lanelet3d": r.choice(Z_PROFILES) if r.random() < 0.2 else False,
         "dup_refs": r.random() < 0.15,
         "goal_cls": r.choice(["CustomState", "CustomState", "KSState", "InitialState"]),
         "sid": {"cooperative": r.random() < 0.2, "prediction": r.choice([None, None, [1, 2]])},
@@ -610,7 +634,7 @@ def build(spec):
         left = np.array(la["left"], dtype=float)
         right = np.array(la["right"], dtype=float)
         if V.get("lanelet3d"):
-            z = np.linspace(0.25, 1.5, len(left)).reshape(-1, 1)
+            z = np.array(z_profile(V["lanelet3d"], len(left)), dtype=float).reshape(-1, 1)
             left, right = np.hstack([left, z]), np.hstack([right, z])
         stop = None
         if la["stop"] is not None:
